@@ -35,6 +35,7 @@
 
 #include "EbDecCdef.h"
 #include "EbLog.h"
+#include "EbVerifHooks.h"
 
 void dec_av1_loop_filter_frame_mt(EbDecHandle *        dec_handle_ptr,
                                   EbPictureBufferDesc *recon_picture_buf, LfCtxt *lf_ctxt,
@@ -1776,6 +1777,7 @@ void read_uncompressed_header(Bitstrm *bs, EbDecHandle *dec_handle_ptr, ObuHeade
                 frame_info->refresh_frame_flags = all_frames;
                 frame_info->showable_frame      = 0;
             }
+            SVT_VERIF_EV("decdpb", dec_handle_ptr, "ShowEx", frame_to_show_map_idx, frame_info->frame_type == KEY_FRAME);
 
             if (seq_header->film_grain_params_present)
                 load_grain_params(
